@@ -57,6 +57,64 @@ def level_seqs(maxlen, tier):
 AFFINE = ((1.0, 0.0), (0.001, 1000.0))  # target_data = offset + scale * lattice value
 
 
+def kernel_missing_data(rec, n, levels, mask, seed):
+    """data that is missing at both ends of a column (target_data complete): the interpolant between
+    two finite nodes is still a finite number"""
+    from xgcm.transform import interp_1d_linear
+
+    if n < 3:
+        return
+    profs = profiles(n)
+    P = len(profs)
+    phi = (np.arange(n) * 2.0 + 1 + seed % 3)
+    phi[0] = phi[-1] = np.nan
+    th = np.array(profs, dtype=float)
+    lv = np.array(levels, dtype=float)
+    try:
+        out = interp_1d_linear(np.broadcast_to(phi, (P, n)), th, lv, mask_edges=mask, bypass_checks=False, logarithmic=False)
+    except Exception as e:
+        rec.violation("kernel", "missing-data-raise:" + exc_sig(e), dict(level="kernel-nan", n=n, levels=list(levels), mask=mask, profile=list(profs[0])), "array", str(e)[:200])
+        return
+    for p, prof in enumerate(profs):
+        case = dict(level="kernel-nan", n=n, levels=list(levels), mask=mask, profile=list(prof))
+        rec.case(("kn", n, levels, mask, prof), True, sample=case if p == 2 else None, calls=1 if p == 0 else 0)
+        inner = sorted(prof)[1:-1]
+        for k, l in enumerate(levels):
+            if not (min(inner) <= l <= max(inner)):
+                continue  # bracketed by at least one missing node: not asserted
+            w = R.interp_linear(prof, l, mask)
+            e = float(sum(float(x) * v for x, v in zip(w, phi) if float(x) != 0.0))
+            if not np.isclose(out[p, k], e, rtol=1e-12, atol=1e-12):
+                rec.violation("kernel", "finite-interpolant-lost-next-to-missing-data", dict(case, k=k), e, float(out[p, k]))
+                return
+
+
+def kernel_log_nonpositive(rec, n, seed):
+    """method 'log': a level that has no logarithm lies outside every range of (positive) target_data"""
+    from xgcm.transform import interp_1d_linear
+
+    profs = profiles(n)
+    P = len(profs)
+    phi = (np.arange(n) * 3.0 - 4 + seed % 3)
+    for shift in (0, -4):  # target_data in [1, 32] and in [1/16, 2] (values below 1 have negative logarithms)
+        th = 2.0 ** (np.array(profs, dtype=float) + shift)
+        for levels in ((-1.5,), (0.0, 2.0 ** (1 + shift)), (2.0 ** (2 + shift), -0.25, -3.0)):
+            lv = np.array(levels, dtype=float)
+            case0 = dict(level="kernel-log", n=n, levels=list(levels), shift=shift)
+            try:
+                with np.errstate(all="ignore"):
+                    out = interp_1d_linear(np.broadcast_to(phi, (P, n)), th, lv, mask_edges=True, bypass_checks=False, logarithmic=True)
+            except Exception as e:
+                rec.violation("kernel", "log-nonpositive-raise:" + exc_sig(e), dict(case0, profile=list(profs[0])), "array", str(e)[:200])
+                return
+            for p, prof in enumerate(profs):
+                rec.case(("kl", n, levels, shift, prof), True, sample=dict(case0, profile=list(prof)) if p == 1 else None, calls=1 if p == 0 else 0)
+                for k, l in enumerate(levels):
+                    if l <= 0 and not np.isnan(out[p, k]):
+                        rec.violation("kernel", "log-nonpositive-level-not-masked", dict(case0, profile=list(prof), k=k), "nan", float(out[p, k]))
+                        return
+
+
 def kernel_case(rec, n, levels, mask, bypass, log, seed, aff=0):
     from xgcm.transform import interp_1d_linear
 
@@ -266,6 +324,7 @@ def shards(tier, seed):
     ac = api_cases(tier)
     sh += [("api", lo, min(lo + 50, len(ac))) for lo in range(0, len(ac), 50)]
     sh.append(("default",))
+    sh += [("lognp", n) for n in BOUNDS[tier]["n"]]
     return sh
 
 
@@ -280,6 +339,9 @@ def run_shard(shard, tier, seed, rec):
                         kernel_case(rec, n, levels, mask, bypass, log, seed)
                     if not bypass:
                         kernel_case(rec, n, levels, mask, bypass, False, seed, aff=1)
+                        kernel_missing_data(rec, n, levels, mask, seed)
+    elif shard[0] == "lognp":
+        kernel_log_nonpositive(rec, shard[1], seed)
     elif shard[0] == "api":
         _API_GRID.clear()
         for c in api_cases(tier)[shard[1]: shard[2]]:
@@ -289,7 +351,15 @@ def run_shard(shard, tier, seed, rec):
 
 
 def replay_case(case, seed, rec):
-    if case["level"] == "kernel":
+    if case["level"] == "kernel-nan":
+        rec.MAXVIOL = 10 ** 6
+        kernel_missing_data(rec, case["n"], tuple(case["levels"]), case["mask"], seed)
+        rec.viol = [v for v in rec.viol if v["case"].get("profile") == case["profile"]]
+    elif case["level"] == "kernel-log":
+        rec.MAXVIOL = 10 ** 6
+        kernel_log_nonpositive(rec, case["n"], seed)
+        rec.viol = [v for v in rec.viol if v["case"].get("profile") == case["profile"] and v["case"].get("levels") == case["levels"] and v["case"].get("shift") == case["shift"]]
+    elif case["level"] == "kernel":
         rec.MAXVIOL = 10 ** 6
         kernel_case(rec, case["n"], tuple(case["levels"]), case["mask"], case["bypass"], case["log"], seed, aff=case.get("aff", 0))
         rec.viol = [v for v in rec.viol if v["case"].get("profile") == case["profile"]]
